@@ -7,6 +7,9 @@ CONSTANTS
   RotAfter = 1
   FixCompactOrder = TRUE
   SeedSeqFromSnapshot = TRUE
+  AnyRot = FALSE
+  MaxBatch = 0
+  PostUnlinkPersist = TRUE
 INIT Init
 NEXT Next
 INVARIANT CrashSafe
